@@ -78,7 +78,7 @@ Qed.
    None value the text placed there evaluates back to exactly that value (finite floats: not modelled) *)
 Theorem site_value st :
   In st splice_sites -> s_kind st = KRepr \/ s_kind st = KAscii ->
-  s_types st <> [] /\ forallb literal_kind_sub (s_types st) = true /\
+  s_types st <> [] /\ forallb literal_kind (s_types st) = true /\
   forall v p rest, atom_ty v <> None -> wf_lit v -> oracle_ok p ->
     eval_lit (site_value_text (s_kind st) p v ++ codes (s_after st) ++ rest)
     = Some (v, codes (s_after st) ++ rest).
@@ -89,7 +89,7 @@ Proof.
   apply andb_true_iff in Hok. destruct Hok as [Hok _].
   apply andb_true_iff in Hok. destruct Hok as [_ Ha].
   unfold types_ok, types_ok_gen in Ht.
-  assert (Ht': s_types st <> [] /\ forallb literal_kind_sub (s_types st) = true).
+  assert (Ht': s_types st <> [] /\ forallb literal_kind (s_types st) = true).
   { destruct Hk as [E|E]; rewrite E in Ht; apply andb_true_iff in Ht; destruct Ht as [Hn Hl];
       (split; [destruct (s_types st); [discriminate | discriminate] | exact Hl]). }
   destruct Ht' as [Hn Hl]. split; [exact Hn|]. split; [exact Hl|].
@@ -99,6 +99,10 @@ Proof.
   - apply render_eval; assumption.
   - apply render_eval; [intros c _; reflexivity | assumption | assumption].
 Qed.
+
+(* full strength: no repr()/ascii() site admits instances of str/bytes/int subclasses *)
+Lemma sites_full : forallb site_ok_full splice_sites = true.
+Proof. vm_compute. reflexivity. Qed.
 
 (* the default-value renderer of /repo, as read from its source on this run, is a safe table *)
 Lemma default_branches_safe : branches_safe default_literal_branches = true.
